@@ -45,10 +45,12 @@ Inductive pres :=
 (* cross-client presentations: a second, confidential client Y ("victim", [victim_reg]) exists,
    the grant artefact of the case (code, refresh token, device code, token to introspect or
    revoke) belongs to Y, and the request mixes the case's client X with Y's id *)
-| PXBasic                        (* Basic X:right secret of X, client_id=Y in the form *)
-| PXAssert                       (* valid assertion of X, client_id=Y in the form *)
-| PXPost                         (* client_id=X + right client_secret of X in the form, Basic Y:wrong secret *)
-| PXPostId.                      (* client_id=Y + right client_secret of X in the form *)
+| PXBasic (vm : amethod)         (* Basic X:right secret of X, client_id=Y in the form *)
+| PXAssert (vm : amethod)        (* valid assertion of X, client_id=Y in the form *)
+| PXPost (vm : amethod)          (* client_id=X + right client_secret of X in the form, Basic Y:wrong secret *)
+| PXPostId (vm : amethod)        (* client_id=Y + right client_secret of X in the form *)
+| PXDup (vm : amethod).          (* body: client_id=X + right client_secret of X; URL query: client_id=Y *)
+(* vm: the auth method Y is registered with *)
 
 Record cfg := mkCfg { f_post : bool; f_pkjwt : bool; f_refresh : bool;   (* op.Config flags *)
                       c_cc : bool; c_te : bool; c_dev : bool }.          (* optional storage capabilities *)
@@ -58,8 +60,16 @@ Record reg := mkReg { r_known : bool;          (* the client id is registered at
                       r_grants : list grant;   (* Client.GrantTypes() *)
                       r_key : bool }.          (* a public key is registered for the client *)
 
+(* where the parameters travel: request body, URL query, or both *)
+Inductive gplace := GPBody | GPQuery | GPBothSame
+                  | GPBothDiff.  (* body: the grant; query: another grant_type *)
+Inductive place := InBody | InQuery.
+Record placement := mkPl { pl_grant : gplace;   (* grant_type *)
+                           pl_client : place;   (* client_id, client_secret, client_assertion(_type) *)
+                           pl_art : place }.    (* code, refresh_token, device_code, subject_token, token, ... *)
+
 Record input := mkInput { i_router : router; i_endpoint : endpoint; i_cfg : cfg;
-                          i_reg : reg; i_pres : pres; i_grant : grant }.
+                          i_reg : reg; i_pres : pres; i_grant : grant; i_pl : placement }.
 
 Inductive stclass := S1 | S2 | S3 | S4 | S5.
 Inductive ecode := ENone | EInvalidRequest | EInvalidClient | EInvalidGrant | EUnauthorizedClient
@@ -99,24 +109,56 @@ Definition registered (rg : reg) (g : grant) : bool := existsb (grant_eqb g) (r_
 (* ---------------- cross-client presentations: which client and credential the parsers end up with *)
 
 Definition all_grants := [GCode; GRefresh; GCC; GBearer; GTE; GDevice; GImplicit].
-Definition victim_reg := mkReg true MBasic AWeb all_grants false.
+Definition victim_reg (vm : amethod) := mkReg true vm AWeb all_grants false.
+
+(* ---------------- which part of the request a guard reads.  http.Request.Form holds the body
+   values followed by the URL query values, PostForm the body values only; Form.Get / FormValue
+   take the first value (the body's when both are present), the schema decoder the last (the
+   query's). *)
+Inductive source := SForm | SPostForm.
+Definition read_grant (src : source) (pl : gplace) (g : grant) : grant :=
+  match src with
+  | SForm => g
+  | SPostForm => match pl with GPQuery => GMissing | _ => g end
+  end.
+Definition visible (src : source) (pl : place) : bool :=
+  match src with
+  | SForm => true
+  | SPostForm => match pl with InQuery => false | InBody => true end
+  end.
+(* as coded: every guard of both routers reads Form, except ParseDeviceAccessTokenRequest *)
+Definition src_dispatch_p := SForm.      (* Exchange: r.FormValue("grant_type") *)
+Definition src_dispatch_l := SForm.      (* tokensHandler: r.Form.Get("grant_type") *)
+Definition src_with_client := SForm.     (* withClient: r.Form.Get("grant_type") *)
+Definition src_verify_client := SForm.   (* VerifyClient: r.Form.Get("grant_type") *)
+Definition src_client := SForm.          (* every decoder of client_id / client_secret / client_assertion *)
+Definition src_artefact := SForm.        (* every decoder of code, refresh_token, subject_token, token *)
+Definition src_device_code_p := SPostForm. (* ParseDeviceAccessTokenRequest decodes r.PostForm *)
 
 (* every parser lets Basic overwrite the form's client_id/client_secret and reads an assertion's
    issuer, so: PXBasic, PXAssert name X (with a valid credential of X); PXPost, PXPostId name Y
    (with a secret that is not Y's) *)
-Definition names_other_client (p : pres) : bool :=
-  match p with PXPost | PXPostId => true | _ => false end.
+Definition names_other_client (p : pres) : option amethod :=
+  match p with PXPost vm | PXPostId vm | PXDup vm => Some vm | _ => None end.
+(* a credential sent where the reading guard does not look is not there *)
+Definition seen (src : source) (pl : place) (p : pres) : pres :=
+  if visible src pl then p
+  else match p with
+       | PBasic _ _ | PBasicBadEsc => p          (* the header is always seen *)
+       | PBoth b _ => PBasic b false
+       | _ => PNone
+       end.
 Definition eff_pres (p : pres) : pres :=
   match p with
-  | PXBasic => PBasic SRight false
-  | PXAssert => PAssert AOk
-  | PXPost => PBasic SWrong false
-  | PXPostId => PPost SWrong
+  | PXBasic _ => PBasic SRight false
+  | PXAssert _ => PAssert AOk
+  | PXPost _ => PBasic SWrong false
+  | PXPostId _ | PXDup _ => PPost SWrong   (* PXDup: the decoders take the last client_id, the query's *)
   | _ => p
   end.
 (* the artefact belongs to the client the request names *)
 Definition own_artefact (p : pres) : bool :=
-  match p with PXBasic | PXAssert => false | _ => true end.
+  match p with PXBasic _ | PXAssert _ => false | _ => true end.
 
 (* ---------------- what the parsers see *)
 
@@ -251,23 +293,24 @@ Definition device_client_authenticated (c : cfg) (rg : reg) (au ba : bool) : boo
   end.
 
 (* no ValidateGrantType here: recorded finding Fxx-C05-4 *)
-Definition p_device (c : cfg) (rg : reg) (p : pres) (own : bool) : result :=
+Definition p_device (c : cfg) (rg : reg) (p : pres) (art : place) (own : bool) : result :=
   match client_id_from_request rg p with
   | CidErr r => r
   | CidOk au ba =>
-      if negb own then r4 EAccessDenied   (* GetDeviceAuthorizatonState(clientID, deviceCode) *)
+      (* GetDeviceAuthorizatonState(clientID, deviceCode); a device_code in the URL query is not read *)
+      if negb own || negb (visible src_device_code_p art) then r4 EAccessDenied
       else if negb (r_known rg) then r4 EServerError
       else if device_client_authenticated c rg au ba then Granted else r4 EInvalidClient
   end.
 
-Definition p_token (c : cfg) (rg : reg) (p : pres) (g : grant) (own : bool) : result :=
-  match g with
+Definition p_token (c : cfg) (rg : reg) (p : pres) (pl : placement) (g : grant) (own : bool) : result :=
+  match read_grant src_dispatch_p (pl_grant pl) g with
   | GCode => p_code c rg p own
   | GRefresh => if f_refresh c then p_refresh c rg p own else r4 EUnsupportedGrantType
   | GBearer => p_bearer rg
   | GTE => if c_te c then p_te c rg p else r4 EUnsupportedGrantType
   | GCC => if c_cc c then p_cc c rg p else r4 EUnsupportedGrantType
-  | GDevice => if c_dev c then p_device c rg p own else r4 EUnsupportedGrantType
+  | GDevice => if c_dev c then p_device c rg p (pl_art pl) own else r4 EUnsupportedGrantType
   | GMissing => r4 EInvalidRequest
   | GImplicit | GUnknown => r4 EUnsupportedGrantType
   end.
@@ -339,27 +382,29 @@ Definition l_verify_client (c : cfg) (rg : reg) (is_cc : bool)
   end.
 
 (* webServer.withClient: verifyRequestClient, then the grant registration when grant_type is sent *)
-Definition l_with_client (c : cfg) (rg : reg) (p : pres) (g : option grant) (k : result) : result :=
+(* [g]: the grant_type parameter as sent (GMissing: none), [gp] where it travels *)
+Definition l_with_client (c : cfg) (rg : reg) (p : pres) (gp : gplace) (g : grant) (k : result) : result :=
   l_parse p (fun id sec ass =>
-    l_verify_client c rg (match g with Some GCC => true | _ => false end) id sec ass
-      (match g with
-       | Some g' => if registered rg g' then k else r4 EUnauthorizedClient
-       | None => k
+    l_verify_client c rg (match read_grant src_verify_client gp g with GCC => true | _ => false end) id sec ass
+      (match read_grant src_with_client gp g with
+       | GMissing => k
+       | g' => if registered rg g' then k else r4 EUnauthorizedClient
        end)).
 
-Definition l_token (c : cfg) (rg : reg) (p : pres) (g : grant) (own : bool) : result :=
-  match g with
-  | GCode => l_with_client c rg p (Some GCode) (if own then Granted else r4 EInvalidGrant)
-  | GRefresh => l_with_client c rg p (Some GRefresh)
+Definition l_token (c : cfg) (rg : reg) (p : pres) (pl : placement) (g : grant) (own : bool) : result :=
+  let gp := pl_grant pl in
+  match read_grant src_dispatch_l gp g with
+  | GCode => l_with_client c rg p gp g (if own then Granted else r4 EInvalidGrant)
+  | GRefresh => l_with_client c rg p gp g
                   (if negb (f_refresh c) then r4 EUnsupportedGrantType
                    else if own then Granted else r4 EInvalidGrant)
-  | GCC => l_with_client c rg p (Some GCC)
+  | GCC => l_with_client c rg p gp g
                   (if is_none (r_meth rg) then r4 EInvalidClient else Granted)
   | GBearer => if bearer_ok rg then Granted else r4 EInvalidRequest
-  | GTE => l_with_client c rg p (Some GTE)
+  | GTE => l_with_client c rg p gp g
                   (if is_none (r_meth rg) then r4 EInvalidClient
                    else if c_te c then Granted else r4 EUnsupportedGrantType)
-  | GDevice => l_with_client c rg p (Some GDevice)
+  | GDevice => l_with_client c rg p gp g
                   (if negb (c_dev c) then r4 EUnsupportedGrantType
                    else if own then Granted else r4 EAccessDenied)
   | GMissing => r4 EInvalidRequest
@@ -378,10 +423,10 @@ Definition l_introspect (rg : reg) (p : pres) (own : bool) : result :=
     end).
 
 Definition l_revoke (c : cfg) (rg : reg) (p : pres) (own : bool) : result :=
-  l_with_client c rg p None (if own then Granted else r4 EInvalidClient).
+  l_with_client c rg p GPBody GMissing (if own then Granted else r4 EInvalidClient).
 
 Definition l_device_authz (c : cfg) (rg : reg) (p : pres) : result :=
-  l_with_client c rg p None
+  l_with_client c rg p GPBody GMissing
     (if negb (registered rg GDevice) then r4 EUnauthorizedClient
      else if negb (c_dev c) then r5 EUnsupportedGrantType
      else Granted).
@@ -389,14 +434,15 @@ Definition l_device_authz (c : cfg) (rg : reg) (p : pres) : result :=
 (* ---------------- both routers *)
 
 (* [rg], [p]: the client and credential the request names; [own]: the grant artefact belongs to it *)
-Definition authenticate (r : router) (e : endpoint) (c : cfg) (rg : reg) (p : pres) (g : grant)
-    (own : bool) : result :=
+Definition authenticate (r : router) (e : endpoint) (c : cfg) (rg : reg) (p0 : pres) (pl : placement)
+    (g : grant) (own : bool) : result :=
+  let p := seen src_client (pl_client pl) p0 in
   match r, e with
-  | RProvider, EToken => p_token c rg p g own
+  | RProvider, EToken => p_token c rg p pl g own
   | RProvider, EIntrospect => p_introspect rg p own
   | RProvider, ERevoke => p_revoke c rg p own
   | RProvider, EDeviceAuthz => p_device_authz c rg p
-  | RLegacy, EToken => l_token c rg p g own
+  | RLegacy, EToken => l_token c rg p pl g own
   | RLegacy, EIntrospect => l_introspect rg p own
   | RLegacy, ERevoke => l_revoke c rg p own
   | RLegacy, EDeviceAuthz => l_device_authz c rg p
